@@ -171,7 +171,7 @@ CHECKS = {
          'input forms over all 4 369 byte strings of length <= 3 (thorough 4) over a 16-byte alphabet with and without '
          'terminators (parsed value mod 16^n, stop byte, error exit, exact number of input bits consumed, end-of-input when '
          'truncated), 14 cast forms exhaustively incl. dirty destinations, and the 5 buffer helpers over all strings of length <= 3 '
-         'over 4 bytes x counts 0..3; variables and the whole image otherwise unchanged.',
+         'over 4 bytes plus lines of 14..48 chars x counts 0..3, 15..17, 31..33, 48; variables and the whole image otherwise unchanged.',
          'On an error exit the destination is unspecified. Three documentation/behaviour mismatches found here (F17-F19) were repaired by fix: commits.',
          'DESIGN.md section 3 C09'),
  'C11': ('exploration',
